@@ -93,9 +93,12 @@ func (s *Stats) Observe(r *Result) {
 		}
 	}
 	if r.FailFired {
-		if r.FailData {
+		switch {
+		case r.FailData:
 			s.Fault("fail.with_data")
-		} else {
+		case r.ErrClass == "io:eof":
+			s.Fault("fail.unexpected_eof")
+		default:
 			s.Fault("fail.sticky")
 		}
 	}
